@@ -229,6 +229,39 @@ def register_atomic_rule(prog, rep):
               "pollfd = an entry added to the pollfd array)" % ((bad[0][0].loc, bad[0][1]) if bad else ("", "")), function=f.name, construct="register-atomic")
 
 
+
+def reserve_flag_rule(prog, rep):
+    """netbuf_write_reserve() marks the writer as having space reserved before it allocates; when the allocation fails
+    it returns NULL, so no reservation exists, and the mark must be gone again: every later reserve, write and completion
+    handler asserts that nothing is reserved, so a stale mark turns the next call on that writer into an abort."""
+    from ..dataflow import Solver
+    u = prog.unit("netbuf/netbuf_write.c")
+    f = u.func("netbuf_write_reserve")
+    if f is None:
+        raise cdb.AnalysisBroken("anchor missing: netbuf_write_reserve")
+
+    def transfer(st, e):
+        if e.is_assign and e.op == "=" and norm(e.kid(0))[0] == "." and norm(e.kid(0))[2] == "reserved":
+            v = norm(e.kid(1))
+            return v[1] if v[0] == "c" else "?"
+        return st
+    sv = Solver(f, 0, transfer, None, lambda a, b: a if a == b else "?").run()
+    bad = []
+    sets = [e for e in f.all_elems() if e.is_assign and norm(e.kid(0))[0] == "." and norm(e.kid(0))[2] == "reserved"]
+
+    def visit(e, st):
+        if own.is_failure_return(e) and st != 0:
+            bad.append(e)
+    sv.visit(visit)
+    if not sets:
+        rep.defer_broken("ATOMIC: netbuf_write_reserve no longer stores the reservation mark")
+        return
+    rep.check(not bad, "ATOMIC", "netbuf_write_reserve(): a failed reservation leaves nothing reserved", f.loc,
+              "at the failure return %s W->reserved may still be set although NULL is returned: the next netbuf_write_reserve / netbuf_write_write on this writer, "
+              "and the completion of a write already in flight, abort on their `reserved == 0` assertions" % (bad[0].loc if bad else ""),
+              function=f.name, construct="reserved-flag")
+
+
 def atomic_rule(prog, rep):
     A = own.Atomic(prog)
     for up in CONTAINER_UNITS:
@@ -346,6 +379,7 @@ def run(tier):
         acq = leak_rules(prog, rep)
         atomic_rule(prog, rep)
         register_atomic_rule(prog, rep)
+        reserve_flag_rule(prog, rep)
         infallible_rule(prog, rep)
         reported_rule(prog, rep)
         from . import c07
